@@ -6,7 +6,9 @@ from . import env
 from . import refmodel as R
 
 NAMES = ['a', 'b', 'ab', '.h', '.a', 'A', 'c.d', 'B', 'aB']
-LINK_KINDS = ['file', 'dir', 'dangling', 'parent', 'self', 'sibling', 'hidden', 'dot']
+# 'thrufile' / 'longname': links whose target cannot even be stat()ed (ENOTDIR through a regular file, ENAMETOOLONG): the entry
+# exists (lexists) and is not a directory
+LINK_KINDS = ['file', 'dir', 'dangling', 'parent', 'self', 'sibling', 'hidden', 'dot', 'thrufile', 'longname']
 
 
 def gen_spec(rng, max_entries=14, maxdepth=3, names=NAMES, p_dir=0.38, p_link=0.25, link_kinds=LINK_KINDS):
@@ -43,6 +45,10 @@ def gen_spec(rng, max_entries=14, maxdepth=3, names=NAMES, p_dir=0.38, p_link=0.
                     tgt = rng.choice(['.h', '.a'])
                 elif kind == 'dot':
                     tgt = '.'
+                elif kind == 'thrufile':
+                    tgt = rng.choice(['a', 'b', 'c.d', 'A']) + '/x'
+                elif kind == 'longname':
+                    tgt = 'n' * 300
                 else:
                     tgt = rng.choice(['../a', '../b', '../ab', '../A'])
                 spec.append((p, 'l', tgt))
